@@ -23,6 +23,16 @@ pub(crate) fn describe(
             Some(generic::verif::slim128_to_raw(&(*(raw as *const SlimSSSE3<3>)).slim128))
         } else if name == "SlimSSSE3" && bytes == 4 {
             Some(generic::verif::slim128_to_raw(&(*(raw as *const SlimSSSE3<4>)).slim128))
+        } else if name == "SlimAVX2" && bytes == 1 {
+            // the 256-bit slim searcher carries a 128-bit one for haystacks
+            // shorter than two vectors; that half is what gets rebuilt
+            Some(generic::verif::slim128_to_raw(&(*(raw as *const SlimAVX2<1>)).slim128))
+        } else if name == "SlimAVX2" && bytes == 2 {
+            Some(generic::verif::slim128_to_raw(&(*(raw as *const SlimAVX2<2>)).slim128))
+        } else if name == "SlimAVX2" && bytes == 3 {
+            Some(generic::verif::slim128_to_raw(&(*(raw as *const SlimAVX2<3>)).slim128))
+        } else if name == "SlimAVX2" && bytes == 4 {
+            Some(generic::verif::slim128_to_raw(&(*(raw as *const SlimAVX2<4>)).slim128))
         } else {
             None
         }
